@@ -474,6 +474,11 @@ def check_public_writes(run, rename=None):
                     if verdict is None and not msg:
                         msg = "value-dependent flush threshold in a form the rule does not understand"
                     run.ob("R06.2", key, verdict, f, c["l"], msg)
+                elif K < need and loops and not nm.startswith("write_int") and any(
+                        x_.get("k") == "Bin" and x_.get("op") in ("/", "/=") and "m_avail" in show(x_) for x_ in ir.walk(f["body"])):
+                    run.ob("R06.2", key, None, f, c["l"],
+                           "write_int(%s) inside a loop whose trip count is computed from m_avail by a division: whether that reserves the worst-case "
+                           "head for every item of a run is not decided by this rule" % show(c["args"][0]))
                 else:
                   run.ob("R06.2", key, K >= need, f, c["l"],
                        "flush threshold %d >= worst-case head %d (%s)" % (K, need, why) if K >= need else
@@ -1088,6 +1093,30 @@ def check_primitive_returns(run, rule):
                 ok = cv == len(stores) and any(const_value(u["args"][0]) == cv for u in ubs)
                 run.ob(rule, key, ok, f, r["l"], "returns %d after storing %d byte(s) and advancing by %d" % (cv, len(stores), cv) if ok else
                        "returns %s but stores %d byte(s)" % (cv, len(stores)))
+            elif p and p[0].startswith("l:") and any(x.get("k") == "Bin" and x.get("op") == "+=" and path(x.get("lhs")) == p for x in ir.walk(f["body"])) and \
+                    len(ubs) > 1 and not wss:
+                # an accumulator over several stores (items written in a loop): every advance of the buffer is added to it - the
+                # `update_buffer(n)` and the `acc += n` sit in one statement list, the same n
+                missing = []
+                for b_ in ir.walk(f["body"]):
+                    if b_.get("k") != "Block":
+                        continue
+                    sts_ = b_.get("s", [])
+                    for i_, s_ in enumerate(sts_):
+                        u_ = unwrap(s_)
+                        if isinstance(u_, dict) and u_.get("k") == "MCall" and callee_qn(u_) == "CDNS::CdnsEncoder::update_buffer":
+                            arg_ = show(u_["args"][0])
+                            paired = any(isinstance(unwrap(t_), dict) and unwrap(t_).get("k") == "Bin" and unwrap(t_).get("op") == "+=" and
+                                         path(unwrap(t_).get("lhs")) == p and show(unwrap(t_).get("rhs")) == arg_ for t_ in sts_)
+                            if not paired:
+                                missing.append(u_.get("l"))
+                nested = [u for u in ubs if not any(unwrap(s_) is u for b_ in ir.walk(f["body"]) if b_.get("k") == "Block" for s_ in b_.get("s", []))]
+                if nested:
+                    run.ob(rule, key, None, f, r["l"], "the buffer is advanced inside an expression; the accumulated count is not followed")
+                else:
+                    run.ob(rule, key, not missing, f, r["l"],
+                           "every update_buffer(n) is paired with `%s += n`" % show(e) if not missing else
+                           "update_buffer() at line %s advances the buffer without adding to %s: the reported count is short by those bytes" % (missing[0], show(e)))
             elif p and p[0].startswith("l:"):
                 ok = any(path(u["args"][0]) == p for u in ubs)
                 why = "returns the head count that was also passed to update_buffer" if ok else \
